@@ -1,4 +1,6 @@
 #!/bin/bash
+# evidence of runs on deliberately changed trees goes to a scratch directory, never to /verif/evidence
+export VERIF_EVIDENCE_DIR=/verif/out/selftest-evidence
 # Re-introduces every repaired defect (reverse-applies its fix: commit) and checks that the
 # property's quick check reports a violation again. Must-fail corpus for the known findings.
 cd /repo || exit 2
